@@ -26,6 +26,7 @@ type c02Case struct {
 	Paired   bool   `json:"victim_paired"`
 	KeyType  string `json:"key_type"` // p256 (default), p384, ed25519, rsa
 	Chain    bool   `json:"chain"`    // the victim\'s genuine certificate is appended behind the presented leaf
+	AKI      bool   `json:"aki"`      // correct certificate whose authority key identifier names the victim
 }
 
 type c02Obs struct {
@@ -151,7 +152,7 @@ func genC02(r *vc.Rand, i int) *c02Case {
 	if i%4 == 3 {
 		c.Dir = "outbound"
 	}
-	kinds := []string{"none", "no-ski", "ski-len", "ski-len", "correct", "correct", "copied-from-victim", "copied-from-victim", "copied-from-unpaired"}
+	kinds := []string{"none", "no-ski", "ski-len", "ski-len", "correct", "correct", "copied-from-victim", "copied-from-victim", "copied-from-unpaired", "stolen-cert"}
 	c.CertKind = vc.Pick(r, kinds)
 	if c.CertKind == "ski-len" {
 		c.SKILen = vc.Pick(r, []int{0, 1, 8, 16, 19, 21, 32, 40})
@@ -161,6 +162,9 @@ func genC02(r *vc.Rand, i int) *c02Case {
 	// device riding along must not lend its SKI
 	if c.CertKind != "none" && c.CertKind != "correct" && r.Chance(1, 3) {
 		c.Chain = true
+	}
+	if c.CertKind == "correct" && r.Chance(1, 3) {
+		c.AKI = true
 	}
 	if c.Dir == "inbound" {
 		switch r.Intn(6) {
@@ -241,9 +245,27 @@ func runC02(c *c02Case, col *vc.Collector) {
 			crt, presentedSKI = &x, s
 		}
 	case "correct":
-		x, s, err := MakeCert(CertOpts{KeyType: c.KeyType})
+		o := CertOpts{KeyType: c.KeyType}
+		if c.AKI {
+			// the own SKI is genuine; only the authority key identifier points at the victim
+			fmt.Sscanf(victimSKI, "%x", &o.AKI)
+		}
+		x, s, err := MakeCert(o)
 		if err == nil {
 			crt, presentedSKI = &x, s
+		}
+	case "stolen-cert":
+		// the victim's genuine certificate (public anyway: it is sent in every TLS handshake), presented
+		// by somebody who does not have the victim's key; with Chain the own certificate rides behind
+		x, _, err := MakeCert(CertOpts{KeyType: "p256"})
+		if err == nil {
+			own := x.Certificate[0]
+			x.Certificate = [][]byte{victimCert.Certificate[0]}
+			x.Leaf = nil
+			if c.Chain {
+				x.Certificate = append(x.Certificate, own)
+			}
+			crt, presentedSKI = &x, victimSKI
 		}
 	case "copied-from-victim", "copied-from-unpaired":
 		// a fresh key, but the certificate carries the victim's SKI
@@ -254,10 +276,10 @@ func runC02(c *c02Case, col *vc.Collector) {
 			crt, presentedSKI = &x, s
 		}
 	}
-	if c.Chain && crt != nil {
+	if c.Chain && crt != nil && c.CertKind != "stolen-cert" {
 		crt.Certificate = append(crt.Certificate, victimCert.Certificate[0])
 	}
-	cls := fmt.Sprintf("%s:%s:len=%d:key=%s:chain=%v:tls=%s:protos=%s:victim-paired=%v", c.Dir, c.CertKind, c.SKILen, c.KeyType, c.Chain, tlsName(c.TLSMax), c.Protos, c.Paired)
+	cls := fmt.Sprintf("%s:%s:len=%d:key=%s:chain=%v:aki=%v:tls=%s:protos=%s:victim-paired=%v", c.Dir, c.CertKind, c.SKILen, c.KeyType, c.Chain, c.AKI, tlsName(c.TLSMax), c.Protos, c.Paired)
 	col.Class(prop, cls)
 	wit := map[string]any{"case": c, "presented_ski": presentedSKI, "victim_ski": victimSKI}
 
@@ -295,8 +317,18 @@ func runC02(c *c02Case, col *vc.Collector) {
 				}
 			}
 		} else {
+			// an accepted peer is attributed to the SKI of the key it holds, to nothing else
+			for _, cb := range o.Callbacks {
+				if !strings.HasSuffix(cb, ":"+short(presentedSKI)) {
+					col.Violation(prop, "inbound-attributed-to-other-ski", fmt.Sprintf("a peer holding the key of SKI %s caused the application callback %s", short(presentedSKI), cb), c.ID, wit)
+					break
+				}
+			}
 			if o.GotShip {
 				col.Count(prop, "legitimate-peer-accepted", 1)
+				if len(o.Callbacks) > 0 {
+					col.Count(prop, "accepted-peer-callbacks-name-its-own-ski", 1)
+				}
 			} else if c.KeyType != "p256" {
 				col.Count(prop, "correct-ski-with-"+c.KeyType+"-key-not-accepted(not mandated)", 1)
 			} else {
